@@ -3,7 +3,7 @@ with the matching edit of AutosarModelRaw.identifiables; names are checked for u
 prefix re-keying is segment-safe."""
 import re
 from ir import Program, callee_of, has_field
-from flow import origins, is_local_op, call_matches, must_pass, iter_uses, forward_taint, resolve_place, const_val
+from flow import origins, is_local_op, call_matches, must_pass, iter_uses, forward_taint, resolve_place, const_val, switch_edges_on_call_result
 import events as E
 from pairing import paired, dominated_by, followed_on_ok_paths, calls
 from framework import Check
@@ -243,11 +243,27 @@ def sn_rules(C, P):
                 C.check(ok, 'C04-PAIR-index', '%s|make_unique_item_name|needs:%s' % (b.short, '/'.join(sorted(kinds))),
                         'an element is renamed for uniqueness but not registered under the new name on every Ok path', b.where(pos))
     C.check(found == set(exp), 'C04-PAIR-index', 'make_unique_item_name|callers', 'callers of make_unique_item_name changed: %s' % sorted(found))
+    # 2b. the registering primitive registers on every path and the index primitives lock blockingly (their callers do not look at a result)
+    ai = P.find('AutosarModel::add_identifiable')
+    if ai is None:
+        C.anchor_missing('C04-PAIR-index', 'AutosarModel::add_identifiable')
+    else:
+        ins_ = [o['pos'] for o in E.ident_ops(ai) if o['op'] in ('insert', 'entry', 'add')]
+        rets_ = [pos for pos, t in ai.iter_terms() if t['k'] == 'return']
+        C.check(bool(ins_) and bool(rets_) and all(must_pass(ai, (0, 0), [r_], through=set(ins_)) for r_ in rets_), 'C04-PAIR-index', 'add_identifiable|registers-on-every-path',
+                'add_identifiable can return without having stored the entry (a path around the insert, e.g. behind a try-lock): the element exists but get_element_by_path() does not find it', '%s:%d' % (ai.file, ai.line),
+                sample={'fn': 'add_identifiable', 'event': 'return', 'partner': 'identifiables.insert on every path'})
+    for fn_ in ('AutosarModel::add_identifiable', 'AutosarModel::remove_identifiable', 'AutosarModel::fix_identifiables'):
+        b_ = P.find(fn_)
+        if b_ is not None:
+            tl = calls(b_, r'RwLock::<R, T>::try_(write|read)\w*$|RwLock<.*>::try_(write|read)\w*$')
+            C.check(not tl, 'C04-PAIR-index', '%s|blocking-model-lock' % fn_.split('::')[-1], '%s takes the model lock with a try-lock: when it is not obtained the update of the path index is skipped silently' % fn_, b_.where(tl[0]) if tl else '')
     # 3. create_named_sub_element_inner: SHORT-NAME text set, then add_identifiable
     cn = P.get('ElementRaw::create_named_sub_element_inner')
     w = calls(cn, r'ElementRaw>::set_character_data')
     C.check(len(w) == 1 and paired(cn, w[0], ident_positions(cn, {'add'}), 'followed'), 'C04-PAIR-index', 'create_named_sub_element_inner|sn-write|needs:add', 'a named element is created without registering its path')
     # 4. public setter: SHORT-NAME case re-keys with fix_identifiables (prefix re-key => descendants follow)
+    unique_before_link(C, P, 'C04-MUST-unique', ('ElementRaw::create_copied_sub_element_inner', 'ElementRaw::move_element_local', 'ElementRaw::move_element_full'))
     es = P.get('Element::set_character_data_internal')
     wr = [o['pos'] for o in E.content_ops(es) if o['op'] == 'push' and o['item'] == 'CharacterData']
     fx = ident_positions(es, {'fix'})
@@ -328,7 +344,34 @@ def unique_rules(C, P):
             es.where(wr[0]) if wr else '')
 
 
+def unique_before_link(C, P, rule, fns):
+    # copy / move into a new parent: the element is linked only after its name was made unique there - the only way round the call
+    # is the not-identifiable edge (an element without a name has no path)
+    for fn in fns:
+        b = P.get(fn)
+        mus = calls(b, r'ElementRaw>?::make_unique_item_name$')
+        ins = [o['pos'] for o in E.content_ops(b) if o['kind'] == 'insert' and o['item'] == 'Element']
+        skip = set()
+        for q in calls(b, r'ElementRaw>?::is_identifiable$|impl Element>::is_identifiable$'):
+            sw = switch_edges_on_call_result(b, q)
+            if sw:
+                skip.add((sw[0], sw[1].get('0', sw[2])))
+        ok = bool(mus) and bool(ins) and bool(skip) and all(must_pass(b, (0, 0), [x], through=set(mus), avoid_edges=frozenset(skip)) for x in ins)
+        C.check(ok, rule, '%s|unique-before-link' % fn.split('::')[-1], 'an identifiable element can be linked into its new parent without make_unique_item_name having run (the call is skipped under a condition other than "not identifiable"): '
+                'two sub elements of the destination can end up with the same path', b.where(ins[0]) if ins else '%s:%d' % (b.file, b.line),
+                sample={'fn': fn, 'link': 'content.insert(Element)', 'only way round make_unique_item_name': 'is_identifiable() == false'})
+
+
 def prefix_rules(C, P):
+    # a new path is the old path with ONE segment exchanged (the last one on rename, the leading ones on move): substituting a substring
+    # (str::replace) exchanges every occurrence - /a/a renamed to b becomes /b/b
+    for fn in ('ElementRaw::set_item_name', 'ElementRaw::move_element_local', 'ElementRaw::move_element_full', 'AutosarModel::fix_identifiables', 'Element::set_character_data_internal'):
+        b = P.find(fn)
+        if b is None:
+            continue
+        bad = [(x, pos) for x in P.with_closures(b) for pos, t in x.iter_calls() if call_matches(t, r'str>::(replace|replacen)$|String::replace_range$')]
+        C.check(not bad, 'C04-DEV-prefix', fn + '|no-substring-replacement', '%s builds a path with str::replace: every occurrence of the old name inside the path is substituted, not only the segment that changes '
+                '(renaming /a/a to b looks up and re-keys /b/b): the duplicate test is made for the wrong path and the index entry moves to a path no element has' % fn, bad[0][0].where(bad[0][1]) if bad else '')
     exempt = {
         'ElementRaw::move_element_local': 'the stripped strings are paths collected from the moved subtree itself (elements_dfs + path()), so the remainder starts at a segment boundary',
         'ElementRaw::move_element_full': 'same: keys of original_paths / references found in it by exact contains_key',
